@@ -44,6 +44,8 @@ Print Assumptions static_ports_match.
 Print Assumptions other_ports_match.
 Print Assumptions port_layout_matches.
 Print Assumptions tag_tests_match.
+Print Assumptions kind_in_matches.
+Print Assumptions kind_out_matches.
 Print Assumptions edge_kinds_match.
 Print Assumptions inputs_must_connect_matches.
 Print Assumptions fields_modelled.
@@ -59,5 +61,5 @@ rm -rf "$TMP"
 echo "$OUT"
 [ $rc -eq 0 ] || { echo "FAIL: Print Assumptions"; exit 1; }
 n=$(echo "$OUT" | grep -c "Closed under the global context")
-if [ "$n" -ne 28 ]; then echo "FAIL: $n of 28 theorems closed"; exit 1; fi
-echo "OK rust-tables: scanner accepted $REPO, 28 theorems closed under the global context"
+if [ "$n" -ne 30 ]; then echo "FAIL: $n of 30 theorems closed"; exit 1; fi
+echo "OK rust-tables: scanner accepted $REPO, 30 theorems closed under the global context"
